@@ -224,3 +224,71 @@ def check_nla_mirror(mk, X, c, rev, Lam):
     if r_b.get_tag('RS') == r_a.get_tag('RS'):
         return 'nla.mirror.strand'
     return None
+
+
+class WindowFasta:
+    """Reference stand-in for the no_overhang scan: every base is 'A' except the `width` bases starting at `base`,
+    which are `window` (symbolic). fetch follows the pysam.FastaFile contract used by the code (negative start raises)."""
+    PAD = 16
+
+    def __init__(self, base, window):
+        self.base = base
+        self.window = window
+        self.padded = 'A' * self.PAD + window + 'A' * self.PAD
+        self.fetches = []
+
+    def fetch(self, reference=None, start=None, end=None):
+        if reference != CONTIG:
+            raise KeyError(reference)
+        if start < 0:
+            raise ValueError('start out of range (%i)' % start)
+        if start > end:
+            raise ValueError('invalid coordinates')
+        lo, hi = start - self.base + self.PAD, end - self.base + self.PAD
+        if lo < 0 or hi > len(self.padded):
+            raise AssertionError('harness: fetch outside the modelled window')
+        self.fetches.append((start, end))
+        return self.padded[lo:hi]
+
+
+def check_nla_no_overhang(mk, mkref, S, rev, window):
+    """L5 (no_overhang=True: the CATG was digested away and is looked up in the reference next to the read).
+    forward read: aligned start S, the 7 reference bases [S-7, S) are `window`; reverse read: aligned end S
+    (exclusive), the 7 reference bases [S, S+7) are `window`. Ground truth: the site is the reference coordinate of the
+    CATG occurrence of the window that is closest to the read; no occurrence -> rejected, no site."""
+    n = 12
+    if not rev:
+        r1 = mk(query_name='q', reference_name=CONTIG, reference_start=S, cigartuples=[(0, n)], seq=BODY[:n], qual='I' * n,
+                is_reverse=False, is_read1=True, is_read2=False, tags={'SM': 'lib_1', 'RX': 'ACG'})
+        ref = mkref(S - 7, window)
+        occ = [j for j in (3, 2, 1, 0) if S - 7 + j >= 0 and window[j:j + 4] == 'CATG']   # bases before the contig start do not exist
+        exp = (S - 7 + occ[0]) if occ else None
+    else:
+        r1 = mk(query_name='q', reference_name=CONTIG, reference_start=S - n, cigartuples=[(0, n)], seq=BODY_R[:n], qual='I' * n,
+                is_reverse=True, is_read1=True, is_read2=False, tags={'SM': 'lib_1', 'RX': 'ACG'})
+        ref = mkref(S, window)
+        occ = [j for j in (0, 1, 2, 3) if window[j:j + 4] == 'CATG']
+        exp = (S + occ[0]) if occ else None
+    try:
+        f = NlaIIIFragment([r1, None], no_overhang=True, reference=ref, umi_hamming_distance=0)
+    except Exception as e:
+        return 'no_overhang.raises.%s' % type(e).__name__
+    if exp is not None:
+        if not f.is_valid():
+            return 'no_overhang.valid.%s' % ('rev' if rev else 'fwd')
+        if not r1.has_tag('DS') or r1.get_tag('DS') != exp:
+            return 'no_overhang.DS.%s' % ('rev' if rev else 'fwd')
+        if f.site_location != (CONTIG, exp):
+            return 'no_overhang.site_location'
+        if r1.get_tag('RS') != rev:
+            return 'no_overhang.RS'
+        if f.match_hash is None or f.match_hash[3] != exp:
+            return 'no_overhang.match_hash'
+    else:
+        if f.is_valid():
+            return 'no_overhang.reject.valid'
+        if r1.has_tag('DS'):
+            return 'no_overhang.reject.DS_present'
+        if not r1.is_qcfail:
+            return 'no_overhang.reject.qcfail'
+    return None
